@@ -416,4 +416,16 @@ Section R.
     - destruct (to_dispatch unm dec a) as [ds f] eqn:E. cbn [snd] in H. subst f.
       rewrite IH by reflexivity. reflexivity.
   Qed.
+
+  (* a fault anywhere in the history: what was delivered is what preceded it; the reader has stopped *)
+  Lemma nothing_after_fault : forall binary a b ins,
+    forallb (citem_wf binary) (a ++ b) = true ->
+    snd (to_dispatch unm dec a) = true ->
+    bevs_of ins = bevs_of (flat_map wire_of (a ++ b)) ->
+    snd (reader_run (rinit binary) ins) = fst (to_dispatch unm dec a) /\
+    fst (reader_run (rinit binary) ins) = RDead.
+  Proof.
+    intros binary a b ins W F E. destruct (framing binary (a ++ b) ins W E) as [D S].
+    rewrite to_dispatch_stops in D, S by assumption. split; [assumption|]. apply S. assumption.
+  Qed.
 End R.
